@@ -16,8 +16,7 @@ fills, per-pool flows, dust — verified by C05), of `amm.Deposit` / `amm.Withdr
 tick-rounded price, and one Boolean `ext` per message standing for the stateless price / tick / denom
 validations.  The theorems quantify over all such inputs.
 
-Ghost components (never observable, only used to state the theorems): per order `taken / refunded / feeFwd /
-paidOut`, and per pair two ghost accounts `mIn` / `mOut` accumulating what the matching engine took out of /
+Ghost components (never observable, only used to state the theorems): per order `taken / refunded / feeFwd`, and per pair two ghost accounts `mIn` / `mOut` accumulating what the matching engine took out of /
 handed to the pair escrow.
 -/
 namespace Comdex.LiqLedger
@@ -149,7 +148,6 @@ structure Order where
   taken : Nat              -- taken from the orderer at placement (offer denom)
   refunded : Nat           -- returned to the orderer at termination (offer denom)
   feeFwd : Nat             -- forwarded to the pair's swap-fee collector
-  paidOut : Nat            -- demand coins paid out to the orderer
   deriving Repr, BEq, DecidableEq
 
 abbrev OKey := Nat × Nat × Nat      -- (appId, pairId, id) as in store.go GetOrderKey
@@ -294,13 +292,17 @@ def MAXCOIN : Nat := 10000000000000000000000000000000000000000
 /-- `types.IsTooSmallOrderAmount` -/
 def tooSmall (amt price : Nat) : Bool := amt < MINCOIN || price * amt < MINCOIN * DEC
 
+/-- offer-side / demand-side denom of an order / fill / pool flow of pair `p` -/
+def sideIn (p : Pair) (buy : Bool) : Denom := if buy then p.quote else p.base
+def sideOut (p : Pair) (buy : Bool) : Denom := if buy then p.base else p.quote
+
 def newOrder (p : Pair) (id owner : Nat) (typ : OType) (buy : Bool) (price amount offer taken : Nat)
     (expireAt : Int) : Order :=
   { app := p.app, pair := p.id, id := id, owner := owner, typ := typ, buy := buy,
-    od := if buy then p.quote else p.base, dd := if buy then p.base else p.quote,
+    od := sideIn p buy, dd := sideOut p buy,
     price := price, amount := amount, openAmt := amount, offer := offer, remaining := offer, received := 0,
     status := .notExecuted, batch := p.curBatch, expireAt := expireAt,
-    taken := taken, refunded := 0, feeFwd := 0, paidOut := 0 }
+    taken := taken, refunded := 0, feeFwd := 0 }
 
 /-- `LimitOrder` / `MarketOrder` (swap.go:27-270).  `price` is the tick-rounded order price and `msgPrice` the
 price in the message (limit orders; ValidateBasic's minimum-offer check uses it); `ext` = price within limits,
@@ -317,7 +319,7 @@ def placeOrder (cfg : Cfg) (s : State) (app user pair : Nat) (typ : OType) (buy 
     match s.pair? app pair with
     | none => none
     | some p =>
-      let od := if buy then p.quote else p.base
+      let od := sideIn p buy
       if s.bal (.user user) od < msgOffer then none else      -- spendable ≥ msg.OfferCoin
       if ac.maxLifespan < lifespan then none else
       if !ext then none else
@@ -405,7 +407,9 @@ structure Tick where
   amount : Nat
   deriving Repr, BEq
 
-def sumOffers (ts : List Tick) : Nat := (ts.map (·.offer)).foldl (· + ·) 0
+def sumOffers : List Tick → Nat
+  | [] => 0
+  | t :: ts => t.offer + sumOffers ts
 
 /-- orders for the ticks, ids `from+1 …` -/
 def mkMMOrders (p : Pair) (owner : Nat) (buy : Bool) (expireAt : Int) : Nat → List Tick → List Order
@@ -646,7 +650,9 @@ def execWithdraw (s : State) (a pl i : Nat) (x y : Nat) : Option State :=
 
 /-! ## Farming (rewards.go:309-528) -/
 
-def qTotal (q : List (Nat × Int)) : Nat := (q.map (·.1)).foldl (· + ·) 0
+def qTotal : List (Nat × Int) → Nat
+  | [] => 0
+  | q :: t => q.1 + qTotal t
 
 /-- the unfarm loop over the queue from the newest entry backwards (rewards.go:411-423): returns the queue
 with reduced amounts and what is still to be taken from the active position. -/
@@ -792,13 +798,13 @@ def markDepleted (s : State) (p : Pair) : State :=
       if q.app == p.app && q.pair == p.id && !q.disabled && depleted s p q then { q with disabled := true } else q }
 
 def poolPayIn (p : Pair) (s : State) (f : PoolFlow) : Option State :=
-  let d := if f.buy then p.quote else p.base
+  let d := sideIn p f.buy
   match s.send (.reserve p.app f.pool) (.pairEscrow p.app p.id) d f.paid with
   | none => none
   | some s1 => some (s1.credit (.mIn p.app p.id) d f.paid)
 
 def poolPayOut (p : Pair) (s : State) (f : PoolFlow) : Option State :=
-  let d := if f.buy then p.base else p.quote
+  let d := sideOut p f.buy
   match s.send (.pairEscrow p.app p.id) (.reserve p.app f.pool) d f.recv with
   | none => none
   | some s1 => some (s1.credit (.mOut p.app p.id) d f.recv)
@@ -809,10 +815,10 @@ def fillOrder (cfg : Cfg) (p : Pair) (s : State) (f : Fill) : Option State :=
   match s.order? k with
   | none => none
   | some o =>
-    if !o.status.live ∨ o.buy ≠ f.buy ∨ o.remaining < f.paid ∨ o.openAmt < f.matched then none else
+    if !o.status.live ∨ o.od ≠ sideIn p f.buy ∨ o.remaining < f.paid ∨ o.openAmt < f.matched then none else
     let s1 := (s.modO k fun o => { o with openAmt := o.openAmt - f.matched, remaining := o.remaining - f.paid,
                                            received := o.received + f.recv, status := .partially }).credit
-                (.mIn p.app p.id) o.od f.paid
+                (.mIn p.app p.id) (sideIn p f.buy) f.paid
     if o.openAmt - f.matched = 0 then finishOrder cfg s1 k .completed else some s1
 
 /-- the queued `SendCoins(escrow → orderer, received)` -/
@@ -821,9 +827,9 @@ def fillPayOut (p : Pair) (s : State) (f : Fill) : Option State :=
   match s.order? k with
   | none => none
   | some o =>
-    match s.send (.pairEscrow p.app p.id) (.user o.owner) o.dd f.recv with
+    match s.send (.pairEscrow p.app p.id) (.user o.owner) (sideOut p f.buy) f.recv with
     | none => none
-    | some s1 => some ((s1.credit (.mOut p.app p.id) o.dd f.recv).modO k fun o => { o with paidOut := o.paidOut + f.recv })
+    | some s1 => some (s1.credit (.mOut p.app p.id) (sideOut p f.buy) f.recv)
 
 def applyMatch (cfg : Cfg) (s : State) (p : Pair) (m : MatchIn) : Option State :=
   match foldOpt (poolPayIn p) s m.pools with
@@ -954,27 +960,32 @@ def genesis (funds : List (Nat × Nat × Nat)) : State :=
 
 /-! ## The invariants as decidable sums (also evaluated by the driver on the REAL state projection) -/
 
-def depSum (d : Denom) : List DepReq → Nat
+def sumOver (F : α → Nat) : List α → Nat
   | [] => 0
-  | r :: t => (if r.status = .pending then (if r.qd = d then r.dx else 0) + (if r.bd = d then r.dy else 0) else 0) + depSum d t
+  | x :: t => F x + sumOver F t
 
-def wdrSum (d : Denom) : List WdrReq → Nat
-  | [] => 0
-  | r :: t => (if r.status = .pending ∧ Denom.pool r.app r.pool = d then r.pc else 0) + wdrSum d t
+def rateOf (cfg : Cfg) (a : Nat) : Nat := ((cfg.app? a).map (·.feeRate)).getD 0
 
+def depTerm (d : Denom) (r : DepReq) : Nat :=
+  if r.status = .pending then (if r.qd = d then r.dx else 0) + (if r.bd = d then r.dy else 0) else 0
+def wdrTerm (d : Denom) (r : WdrReq) : Nat :=
+  if r.status = .pending ∧ Denom.pool r.app r.pool = d then r.pc else 0
+def remTerm (a p : Nat) (d : Denom) (o : Order) : Nat :=
+  if o.app = a ∧ o.pair = p ∧ o.od = d ∧ o.status.live = true then o.remaining else 0
+def liveTerm (cfg : Cfg) (a p : Nat) (d : Denom) (o : Order) : Nat :=
+  if o.app = a ∧ o.pair = p ∧ o.od = d ∧ o.status.live = true then o.remaining + feeRes (rateOf cfg o.app) o else 0
+def farmTerm (a p : Nat) (f : Farmer) : Nat :=
+  if f.app = a ∧ f.pool = p then qTotal f.queued + f.active else 0
+
+/-- coins of pending deposit requests, in denom `d` -/
+def depSum (d : Denom) (l : List DepReq) : Nat := sumOver (depTerm d) l
+/-- pool coins of pending withdrawal requests -/
+def wdrSum (d : Denom) (l : List WdrReq) : Nat := sumOver (wdrTerm d) l
 /-- remaining offer coins of the live orders of a pair, in denom `d` -/
-def remSum (a p : Nat) (d : Denom) : List Order → Nat
-  | [] => 0
-  | o :: t => (if o.app = a ∧ o.pair = p ∧ o.od = d ∧ o.status.live then o.remaining else 0) + remSum a p d t
-
+def remSum (a p : Nat) (d : Denom) (l : List Order) : Nat := sumOver (remTerm a p d) l
 /-- remaining offer coins plus escrowed fee reserves of the live orders of a pair -/
-def liveSum (cfg : Cfg) (a p : Nat) (d : Denom) : List Order → Nat
-  | [] => 0
-  | o :: t => (if o.app = a ∧ o.pair = p ∧ o.od = d ∧ o.status.live then
-      o.remaining + feeRes ((cfg.app? o.app).map (·.feeRate) |>.getD 0) o else 0) + liveSum cfg a p d t
-
-def farmSum (a p : Nat) : List Farmer → Nat
-  | [] => 0
-  | f :: t => (if f.app = a ∧ f.pool = p then qTotal f.queued + f.active else 0) + farmSum a p t
+def liveSum (cfg : Cfg) (a p : Nat) (d : Denom) (l : List Order) : Nat := sumOver (liveTerm cfg a p d) l
+/-- pool coins recorded as farmed (queued + active) for a pool -/
+def farmSum (a p : Nat) (l : List Farmer) : Nat := sumOver (farmTerm a p) l
 
 end Comdex.LiqLedger
